@@ -6,25 +6,27 @@ PROP = dict(
         "hand-written Gallina model coq/Tokens/Model.v of native_nep17.go / native_gas.go / native_neo.go / notary.go / policy.go "
         "(tied by block-by-block comparison of storage dumps, Transfer events and transaction results; not by translation)",
         "harness/c05*.go: neotest chain driver, storage dump decoding with the state types, Go-side evaluation of the invariants",
-        "behaviour probes c05Probe (which of the two repaired behaviours F7/F23 the tree has; sets two model flags)",
+        "behaviour probes c05Probe (which of the repaired behaviours F7/F23/F47 the tree has; sets three model flags)",
     ],
     assumptions=[
         "cfg_wf: the Notary contract is the only account of kind Notary and differs from the NEO contract, the validators' address and every key address (checked on every case by cfg_wf_b)",
-        "blocks_ok: no transaction is signed by the Notary contract (NotaryAssisted fee payment by deposit is not modelled)",
+        "blocks_ok: no script sees the witness of the Notary contract: a transaction sent by the Notary contract carries the NotaryAssisted attribute and names a payer other than the contract "
+        "(Notary.verify refuses anything else; the contract signs with scope None)",
         "committee size and validator count constant; hard-forks Aspidochelone..Echidna on from genesis (Faun, Gorgon as flags)",
         "deployed contracts other than the three callback contracts do not hold or move NEO/GAS",
     ],
     modelled="NEO/GAS/Notary/Policy accounting and governance are modelled by hand and proved; the VM, witness checking (reduced to 'signer = from'), "
-             "GAS metering (reduced to 'register price <= system fee'), NotaryAssisted transactions and Oracle/Treasury are not modelled",
+             "GAS metering (reduced to 'register price <= system fee') and Oracle/Treasury are not modelled; NotaryAssisted transactions are modelled in their fee flow "
+             "(fees of Notary-sent transactions burnt from the contract and charged to the payer's deposit, (NKeys+1) x fee per key withheld from the primary and minted in equal floor shares to the designated P2PNotary nodes)",
 )
 META = dict(
     text="Proved in Coq for every block history of the model (induction over any list of blocks of any transactions, faulting ones rolled back): "
          "NEO supply = 100,000,000 = sum of balances; GAS supply = sum of balances; candidate votes = NEO of its voters; voters count; Notary GAS = sum of deposits; "
          "non-negativity; per-account balance change = net Transfer events; and hypothesis H3 decided: every voted key has a candidate record, so crediting cannot fail "
          "after the debit and a 'false' transfer changes nothing. The model follows the code's mechanism (updateAccBalance/increaseBalance/ModifyAccountVotes/"
-         "dropCandidateIfZero/PostPersist rewards) and is tied to the real chain by comparing, after EVERY block of random neotest histories, the decoded NEO/GAS/"
+         "dropCandidateIfZero/PostPersist rewards, GAS.OnPersist and Notary.OnPersist with the NotaryAssisted fee flow) and is tied to the real chain by comparing, after EVERY block of random neotest histories, the decoded NEO/GAS/"
          "Notary/Policy storage, Transfer events and transaction results with the model, plus direct evaluation of every clause on the real dump. "
-         "Partial: NotaryAssisted fee payment, Oracle and Treasury flows are not modelled.",
+         "Partial: Oracle and Treasury flows are not modelled.",
     note="Trusted: Coq kernel + vm_compute, the hand-written model (tied by differential comparison only), the Go harness and its storage decoding, ./check. "
-         "Assumed: configuration well-formedness (checked per case), no transaction signed by the Notary contract, constant committee size.",
+         "Assumed: configuration well-formedness (checked per case), Notary-sent transactions carry the NotaryAssisted attribute with a payer other than the contract, constant committee size.",
 )
